@@ -26,6 +26,13 @@ def run(ctx):
         "0..64, one seeded length in every 32-byte block up to 8192, 8180..8192 (65500..65531 for NULL/PRIVATE), all 8 tunnel domains rotating over the lengths, "
         "so that answers of every size class (one record .. hundreds of records, up to tens of kilobytes on the wire) are formed for both kinds of query; "
         "plus every response type without a payload x domain x {OPT, no OPT}. "
+        "Domains that can occur again inside a payload: the family 'domrep' (one work item per record type x codec) uses the tunnel domains "
+        "a, q, t, 7, aa, ab3, t.t, a.a, tunnel, intranet, A, Tunnel (single label, one or two characters, periodic; characters of the codecs' alphabets): "
+        "every payload length 0..420 for MX/SRV/CNAME (0..80 for the other record types), data packets, upstream-codec echoes and fragment-size probes, with seeded "
+        "random payloads (5 per length for one-character domains) and payloads steered, through the real Response.Encode and codec only, so that the text put into "
+        "the records ends in the domain's first label (generator 'domtail'; falls back to the random payload where the length or codec does not allow it); plus "
+        "the payload-less responses and every error under these domains. stat:answers_with_the_domain_text_among_the_payload_labels counts the answers in which a "
+        "host-name record really carried the domain text as one of its payload labels. "
         "Histories: a response that was decoded and found identical is kept for the next 3 answers the same client decodes and compared again after each of them "
         "(what a client received stays what it received: signature ...:changed-after-later-decode, replay = the case plus the answers in 'then'). "
         "Concurrency: 16 groups (one per shard); a group is one process with 16 clients (goroutines, GOMAXPROCS 4), each with its own Serializer, record type, "
